@@ -7,6 +7,7 @@ package main
 
 import (
 	"go/types"
+	"strings"
 	"net/textproto"
 )
 
@@ -116,6 +117,18 @@ func init() {
 			reqT := ex.p.namedType("net/http", "Request")
 			cli := (*ex.nonNil(fr, args[0])).(Struct)
 			tr := ex.getField(cli, cliT, "Transport").(Iface)
+			if tr.t == nil {
+				// as the real client: fall back to http.DefaultTransport, which a harness
+				// may have replaced by its model network
+				if dv := ex.p.prog.ImportedPackage("net/http").Var("DefaultTransport"); dv != nil {
+					if d, ok := (*ex.globalAddr(dv)).(Iface); ok && d.t != nil {
+						if _, isReal := d.v.(*Value); isReal && strings.Contains(d.t.String(), "net/http.Transport") {
+							ex.unsupported("http.Client.Do on the real http.Transport: the real network is not modelled")
+						}
+						tr = d
+					}
+				}
+			}
 			if tr.t == nil {
 				ex.unsupported("http.Client.Do without a Transport: the real network is not modelled")
 			}
